@@ -684,3 +684,209 @@ Theorem recovers_tunnel_flag_and_parks : forall h trig act, Forall wf_ttransfer 
   rt_step (NStandby, false) (TMain (NOut trig true)) = ((NHandshaking, false), FRewritten) /\
   rt_step (NHandshaking, false) (TMain (NIn act)) = ((NHandshaking, false), FParked).
 Proof. intros h trig act Hwf. split; [apply recovers_tunnel_flag; exact Hwf | split; reflexivity]. Qed.
+
+(* ------------------------------------------------------------------------------- *)
+(* 7. Line framing of the handshake *)
+
+(* the four rules and the order of handshake(), as the model transcribes them *)
+Lemma framing_rules_src_ok :
+  (* (r.clientIsWindows || r.trigger.winServer) && !r.tunnelConnected.Load() *)
+  relayneg_to_client_rule_src =
+  [40;114;46;99;108;105;101;110;116;73;115;87;105;110;100;111;119;115;32;124;124;32;114;46;116;114;105;103;103;101;
+   114;46;119;105;110;83;101;114;118;101;114;41;32;38;38;32;33;114;46;116;117;110;110;101;108;67;111;110;110;101;
+   99;116;101;100;46;76;111;97;100;40;41] /\
+  (* r.trigger.winServer && (!r.tunnelConnected.Load() || typ == "ACT") *)
+  relayneg_to_server_rule_src =
+  [114;46;116;114;105;103;103;101;114;46;119;105;110;83;101;114;118;101;114;32;38;38;32;40;33;114;46;116;117;110;
+   110;101;108;67;111;110;110;101;99;116;101;100;46;76;111;97;100;40;41;32;124;124;32;116;121;112;32;61;61;32;
+   34;65;67;84;34;41] /\
+  (* r.trigger.winServer && !r.tunnelConnected.Load() *)
+  relayneg_from_client_rule_src =
+  [114;46;116;114;105;103;103;101;114;46;119;105;110;83;101;114;118;101;114;32;38;38;32;33;114;46;116;117;110;110;
+   101;108;67;111;110;110;101;99;116;101;100;46;76;111;97;100;40;41] /\
+  (* (r.clientIsWindows || r.trigger.winServer) && !r.tunnelConnected.Load() *)
+  relayneg_from_server_rule_src =
+  [40;114;46;99;108;105;101;110;116;73;115;87;105;110;100;111;119;115;32;124;124;32;114;46;116;114;105;103;103;101;
+   114;46;119;105;110;83;101;114;118;101;114;41;32;38;38;32;33;114;46;116;117;110;110;101;108;67;111;110;110;101;
+   99;116;101;100;46;76;111;97;100;40;41].
+Proof. repeat split; reflexivity. Qed.
+
+(* "recvAction failed? setTunnelConnected setClientIsWindows binaryOff clampProtocol sendAction
+    refused? recvConfig failed? junk paneWidth sendConfig confirmed" *)
+Lemma handshake_order_src_ok : relayneg_handshake_order =
+  [114;101;99;118;65;99;116;105;111;110;32;102;97;105;108;101;100;63;32;115;101;116;84;117;110;110;101;108;67;111;110;
+   110;101;99;116;101;100;32;115;101;116;67;108;105;101;110;116;73;115;87;105;110;100;111;119;115;32;98;105;110;97;114;
+   121;79;102;102;32;99;108;97;109;112;80;114;111;116;111;99;111;108;32;115;101;110;100;65;99;116;105;111;110;32;114;
+   101;102;117;115;101;100;63;32;114;101;99;118;67;111;110;102;105;103;32;102;97;105;108;101;100;63;32;106;117;110;107;
+   32;112;97;110;101;87;105;100;116;104;32;115;101;110;100;67;111;110;102;105;103;32;99;111;110;102;105;114;109;101;100].
+Proof. reflexivity. Qed.
+
+(* the terminators of the relay and of the client are the same two strings, and the ACT's
+   Windows newline is the one the relay recognises a Windows client by *)
+Lemma terminators_src_ok :
+  relayneg_to_client_win_nl = relayneg_client_line_win_nl /\ relayneg_to_client_nl = relayneg_client_cfg_newline /\
+  relayneg_to_server_win_nl = relayneg_to_client_win_nl /\ relayneg_to_server_nl = relayneg_to_client_nl /\
+  relayneg_client_act_win_nl = relayneg_client_win_newline /\
+  list_eqb relayneg_client_act_nl relayneg_client_win_newline = false.
+Proof. repeat split; reflexivity. Qed.
+
+(* "!t.tunnelConnected && (isWindowsEnvironment() || remoteIsWindows)" on the sending side,
+   "!t.tunnelConnected && (isWindowsEnvironment() || t.windowsProtocol)" on the reading side *)
+Lemma client_rules_src_ok :
+  (* !t.tunnelConnected && (isWindowsEnvironment() || remoteIsWindows) *)
+  relayneg_client_windows_rule_src =
+  [33;116;46;116;117;110;110;101;108;67;111;110;110;101;99;116;101;100;32;38;38;32;40;105;115;87;105;110;100;111;
+   119;115;69;110;118;105;114;111;110;109;101;110;116;40;41;32;124;124;32;114;101;109;111;116;101;73;115;87;105;110;
+   100;111;119;115;41] /\
+  (* !t.tunnelConnected && (isWindowsEnvironment() || t.windowsProtocol) *)
+  relayneg_client_reader_rule_src =
+  [33;116;46;116;117;110;110;101;108;67;111;110;110;101;99;116;101;100;32;38;38;32;40;105;115;87;105;110;100;111;
+   119;115;69;110;118;105;114;111;110;109;101;110;116;40;41;32;124;124;32;116;46;119;105;110;100;111;119;115;80;114;
+   111;116;111;99;111;108;41].
+Proof. split; reflexivity. Qed.
+
+Definition nl_is_win (nl : rn_str) : bool := list_eqb nl relayneg_to_client_win_nl.
+
+Lemma nl_to_client_cases : forall e cw tun,
+  rn_nl_to_client e cw tun = (if (cw || ne_win_server e) && negb tun then relayneg_client_line_win_nl else relayneg_client_cfg_newline).
+Proof. intros. unfold rn_nl_to_client. destruct ((cw || ne_win_server e) && negb tun); reflexivity. Qed.
+
+(* what the relay has learnt from the Go client's ACT *)
+Lemma client_action_facts : forall c confirm proto lang ver,
+  let a := rewrite_action (decode_action_into relay_action_init (rn_client_action c confirm proto lang ver)) in
+  na_tunnel a = cl_tunnel c /\ na_confirm a = confirm /\
+  list_eqb (na_newline a) relayneg_client_win_newline = rn_client_windows c.
+Proof.
+  intros c confirm proto lang ver. cbn zeta. unfold rn_client_action, decode_action_into, rewrite_action.
+  cbn [nwa_lang nwa_version nwa_confirm nwa_newline nwa_protocol nwa_binary nwa_support_dir nwa_tunnel nwa_fork rn_dflt
+       na_lang na_version na_confirm na_newline na_protocol na_binary na_support_dir na_tunnel na_fork].
+  repeat split. destruct (rn_client_windows c); reflexivity.
+Qed.
+
+(* THEOREM: whatever the relay itself sends to the Go client during a handshake - the edited
+   CFG, or FAIL for whatever reason - ends with the terminator that client's reader needs;
+   for every client (Windows or not, tunnel or not, Windows server or not), every relay
+   (tmux or not), whatever the relay remembered from earlier transfers, whatever the server
+   sent or did not send *)
+Theorem client_terminator : forall e c cw0 confirm proto lang ver cfg,
+  ne_win_server e = cl_remote_win c ->
+  Forall (fun m => snd m = rn_client_terminator c)
+         (h2_to_client (rn_handshake2 e cw0 (rn_client_act_line c (rn_client_action c confirm proto lang ver)) cfg)).
+Proof.
+  intros e c cw0 confirm proto lang ver cfg Hwin.
+  destruct (client_action_facts c confirm proto lang ver) as (Htun & Hconf & Hnl). cbn zeta in Htun, Hconf, Hnl.
+  unfold rn_handshake2, rn_client_act_line. cbn [ln_win ln_body].
+  unfold rn_reader_from_client. rewrite Hwin, andb_true_r.
+  assert (Hread : rn_read_line (cl_remote_win c) (cl_remote_win c) = RdOk) by (destruct (cl_remote_win c); reflexivity).
+  rewrite Hread. cbn zeta. rewrite Htun, Hconf, Hnl.
+  assert (Hterm : rn_nl_to_client e (rn_client_windows c) (cl_tunnel c) = rn_client_terminator c).
+  { rewrite nl_to_client_cases. unfold rn_client_terminator, rn_client_windows. rewrite Hwin.
+    destruct (cl_tunnel c), (cl_env_win c), (cl_remote_win c); reflexivity. }
+  destruct confirm; cbn [negb]; [| constructor].
+  destruct cfg as [cl |]; [| constructor].
+  destruct (rn_read_line _ (ln_win cl)); try (cbn [h2_to_client]; constructor).
+  - destruct (ln_body cl) as [wc |]; [destruct (relay_config e (cl_tunnel c) wc) |];
+      cbn [h2_to_client rn_hs2_fail]; repeat constructor; cbn [snd]; exact Hterm.
+  - cbn [h2_to_client rn_hs2_fail]. repeat constructor; cbn [snd]; exact Hterm.
+  - cbn [h2_to_client]. constructor.
+Qed.
+
+(* THEOREM: between the Go client and the Go server a relay never misreads a line: it reads
+   the ACT, and the server's CFG (framed with the newline of the ACT the server received),
+   with the matching reader; so with a decodable CFG without escape table the handshake is
+   confirmed and the client gets the edited CFG in its own framing *)
+Theorem go_ends_complete : forall e c cw0 proto lang ver wc cc,
+  ne_win_server e = cl_remote_win c ->
+  nwc_escape wc = None ->
+  decode_config_into (rn_client_init (ne_win_server e) (cl_tunnel c)) wc = Some cc ->
+  let wa := rn_client_action c true proto lang ver in
+  let a := rewrite_action (decode_action_into relay_action_init wa) in
+  exists wc',
+    rn_handshake2 e cw0 (rn_client_act_line c wa) (Some (rn_server_line a (Some wc))) =
+      mkHs2 [(OAct (encode_action a), rn_nl_to_server e (cl_tunnel c) true)]
+            [(OCfg wc', rn_client_terminator c)] NTransferring (rn_client_windows c) /\
+    decode_config_into (rn_client_init (ne_win_server e) (cl_tunnel c)) wc' = Some (rewrite_config e cc).
+Proof.
+  intros e c cw0 proto lang ver wc cc Hwin Hesc Hdec. cbn zeta.
+  destruct (client_action_facts c true proto lang ver) as (Htun & Hconf & Hnl). cbn zeta in Htun, Hconf, Hnl.
+  destruct (relay_config_narrows e (cl_tunnel c) wc cc Hesc Hdec) as [wc' [Hrc Hdc]].
+  exists wc'. split; [| exact Hdc].
+  unfold rn_handshake2, rn_client_act_line, rn_server_line. cbn [ln_win ln_body].
+  unfold rn_reader_from_client. rewrite Hwin, andb_true_r.
+  assert (Hread : rn_read_line (cl_remote_win c) (cl_remote_win c) = RdOk) by (destruct (cl_remote_win c); reflexivity).
+  rewrite Hread. cbn zeta. rewrite Htun, Hconf, Hnl. cbn [negb].
+  assert (Hread2 : rn_read_line (rn_reader_from_server e (rn_client_windows c) (cl_tunnel c)) (rn_client_windows c) = RdOk).
+  { unfold rn_reader_from_server, rn_client_windows. rewrite Hwin.
+    destruct (cl_tunnel c), (cl_env_win c), (cl_remote_win c); reflexivity. }
+  rewrite Hread2, Hrc.
+  assert (Hterm : rn_nl_to_client e (rn_client_windows c) (cl_tunnel c) = rn_client_terminator c).
+  { rewrite nl_to_client_cases. unfold rn_client_terminator, rn_client_windows. rewrite Hwin.
+    destruct (cl_tunnel c), (cl_env_win c), (cl_remote_win c); reflexivity. }
+  rewrite Hterm. reflexivity.
+Qed.
+
+(* a relay is transparent for the framing: towards its client it writes with exactly the
+   framing it expects from its server side, and towards its server the ACT in the framing it
+   expects from its client side - so relays in a chain (same Windows-server fact, same ACT
+   newline and tunnel field, which no relay changes) read each other's lines *)
+Theorem framing_transparent : forall e e' cw tun,
+  ne_win_server e' = ne_win_server e ->
+  rn_read_line (rn_reader_from_server e' cw tun) (nl_is_win (rn_nl_to_client e cw tun)) = RdOk /\
+  rn_read_line (rn_reader_from_client e' false) (nl_is_win (rn_nl_to_server e tun true)) = RdOk.
+Proof.
+  intros e e' cw tun Hw. unfold rn_reader_from_server, rn_reader_from_client, rn_nl_to_client, rn_nl_to_server. rewrite Hw.
+  destruct cw, tun, (ne_win_server e); split; reflexivity.
+Qed.
+
+(* with matching framings the contents are those of rn_handshake (section 2) *)
+Definition hs2_contents (r : rn_hs2) : list rn_out_msg * list rn_out_msg :=
+  (map fst (h2_to_server r), map fst (h2_to_client r)).
+
+Definition hs_contents (r : rn_hs_result) : list rn_out_msg * list rn_out_msg :=
+  match r with
+  | HsBadAction => ([OFail], [OFail])
+  | HsRefused a => ([OAct a], [])
+  | HsBadConfig a => ([OAct a; OFail], [OFail])
+  | HsDone a c => ([OAct a], [OCfg c])
+  end.
+
+Theorem handshake2_refines : forall e cw0 aw act cfgw cfg,
+  rn_read_line (rn_reader_from_client e false) aw = RdOk ->
+  (forall a, act = Some a ->
+     rn_read_line (rn_reader_from_server e
+        (list_eqb (na_newline (rewrite_action (decode_action_into relay_action_init a))) relayneg_client_win_newline)
+        (na_tunnel (rewrite_action (decode_action_into relay_action_init a)))) cfgw = RdOk) ->
+  let r := rn_handshake2 e cw0 (mkRnLine aw act) (Some (mkRnLine cfgw cfg)) in
+  hs2_contents r = hs_contents (rn_handshake e act cfg) /\
+  h2_status r = status_after_handshake (rn_handshake e act cfg).
+Proof.
+  intros e cw0 aw act cfgw cfg Ha Hc. cbn zeta. unfold rn_handshake2, rn_handshake. cbn [ln_win ln_body].
+  rewrite Ha. destruct act as [wa |]; [| split; reflexivity].
+  cbn zeta. specialize (Hc wa eq_refl).
+  destruct (na_confirm (rewrite_action (decode_action_into relay_action_init wa))); cbn [negb]; [| split; reflexivity].
+  rewrite Hc. destruct cfg as [wc |]; [| split; reflexivity].
+  destruct (relay_config e _ wc); split; reflexivity.
+Qed.
+
+(* The statement WITHOUT the premise "the client's ACT was readable" is false: when the relay
+   cannot decode the ACT it does not know the client and frames its FAIL by what it remembers
+   (clientIsWindows of an earlier transfer, false on a fresh relay).  Witness: a fresh relay,
+   Unix server, a client on Windows whose ACT payload is damaged: FAIL goes out with "\n",
+   which that client's reader (waiting for '!') does not take as a line. *)
+Definition client_terminator_any_act : Prop := forall e c cw0 (act : rn_line n_wire_action) cfg,
+  ne_win_server e = cl_remote_win c -> ln_win act = cl_remote_win c ->
+  Forall (fun m => snd m = rn_client_terminator c) (h2_to_client (rn_handshake2 e cw0 act cfg)).
+
+Theorem client_terminator_any_act_refuted : ~ client_terminator_any_act.
+Proof.
+  intro H.
+  specialize (H (mkNEnv 0 (-1)%Z false) (mkRnClient true false false) false (mkRnLine false None) None eq_refl eq_refl).
+  vm_compute in H. inversion H as [| m l Hm Hl]; subst. discriminate Hm.
+Qed.
+
+(* resetToStandby starts with `if !r.relayStatus.CompareAndSwap(status, kRelayStandBy) { return }`:
+   rt_reset's "only from the expected state" is that guard (the translator reports the shape
+   instead of refusing to translate, so that a reset from any state breaks THIS lemma and the
+   models stay executable for the search engines of C13) *)
+Lemma reset_guard_src_ok : relayneg_reset_guard_is_cas = true.
+Proof. reflexivity. Qed.
